@@ -375,6 +375,12 @@ pub mod cluster {
         let state = match previous {
             None => ClusterState::new(metadata, &node_config, Some(&RejectAll)).await,
             Some(prev) => {
+                // `calculate_new_topology` keeps a host-filter-rejected node only if it is not
+                // enabled; drop the overrides first so that unchanged nodes keep their objects
+                // (they are re-imposed on the new state below).
+                for node in prev.known_nodes.values() {
+                    node.verif_override_state(false, false);
+                }
                 prev.new_updated(metadata, &node_config, Some(&RejectAll))
                     .await
             }
